@@ -268,6 +268,19 @@ def reject_cases(seed=0):
                 bad.append(dict(what="rejected options left files behind", case=tag, files=sorted(left)))
                 for f in left:
                     os.remove(os.path.join(td, f))
+        # validation decides, it does not rewrite: after validate() every option still has the value the user gave (the object is reused for later runs)
+        import dataclasses as _dc
+        import itertools as _it
+        for adaptive_, screening_, tp_ in _it.product((True, False), (True, False), (0.0, None)):
+            o_v = tdgl.SolverOptions(solve_time=1.0, adaptive=adaptive_, include_screening=screening_, terminal_psi=tp_, dt_init=1e-4, dt_max=5e-2, save_every=7)
+            given = {f_.name: getattr(o_v, f_.name) for f_ in _dc.fields(o_v)}
+            n += 1
+            o_v.validate()
+            now = {f_.name: getattr(o_v, f_.name) for f_ in _dc.fields(o_v)}
+            diff = {k_: (given[k_], now[k_]) for k_ in given if k_ != "sparse_solver" and not (given[k_] is now[k_] or given[k_] == now[k_])}
+            if diff:
+                bad.append(dict(what="SolverOptions.validate() changed options the user had set", options=dict(adaptive=adaptive_, include_screening=screening_, terminal_psi=tp_),
+                                changed={k_: [str(a_), str(b_)] for k_, (a_, b_) in diff.items()}))
         # the device a solution was computed on, modified in place afterwards, is a DIFFERENT device: its old solution is no valid seed
         for tag, change in (("layer changed in place", lambda d: setattr(d.layer, "london_lambda", d.layer.london_lambda * 3)),
                             ("hole moved in place", lambda d: (d.holes[0].translate(dx=0.3, inplace=True), d.make_mesh(max_edge_length=0.5, smooth=5)))):
